@@ -206,3 +206,22 @@ pub fn references(
 	}
 	out
 }
+
+/// Paths crossing the inline-buffer thresholds of the library (16 segments, 512 bytes), in a
+/// few shapes: plain, with dot segments to remove, with empty segments, with a long segment.
+pub fn long_paths(abs: bool) -> Vec<Vec<u8>> {
+	let pre = if abs { "/" } else { "" };
+	let segs = |n: usize| (0..n).map(|i| format!("s{i}")).collect::<Vec<_>>().join("/");
+	let big = "L".repeat(600);
+	let mut v: Vec<String> = Vec::new();
+	for n in [16usize, 17, 20] {
+		v.push(format!("{pre}{}", segs(n)));
+		v.push(format!("{pre}{}/", segs(n)));
+		v.push(format!("{pre}{}/../x", segs(n)));
+		v.push(format!("{pre}{}/./y/..", segs(n)));
+	}
+	v.push(format!("{pre}{}/{}", segs(3), big));
+	v.push(format!("{pre}{big}/../{}", segs(3)));
+	v.push(format!("{pre}a//{big}/.//b"));
+	v.into_iter().map(|s| s.into_bytes()).collect()
+}
